@@ -197,6 +197,9 @@ deriving Repr, DecidableEq, Inhabited
 def writeRows (m : Mem) (t B y0 y1 : Nat) : Mem :=
   (List.range (y1 - y0)).foldl (fun m i => m.set t ((y0 + i) % B) (y0 + i)) m
 
+/-- storage after the producer has written rows `[0, P)` in order into a buffer of `B` rows -/
+def writeAll (t B P : Nat) : Mem := writeRows [] t B 0 P
+
 /-- first row of `[ra, rb)` whose slot does not hold that row -/
 def readRows (m : Mem) (t B ra rb : Nat) : Option (Nat × Nat × Option Nat) :=
   (List.range (rb - ra)).findSome? fun i =>
